@@ -934,6 +934,17 @@ Definition iread (I : ideal) (o : op) : option (list (option Z)) :=
   | _ => None
   end.
 
+(* a write the specification accepts (valid arguments, a buffer of the right length for the strided form) *)
+Definition accepts (I : ideal) (o : op) : bool :=
+  match o with
+  | WriteAll _ => negb (i_total I =? 0)
+  | WriteBlock b e _ => block_valid I b e
+  | WriteStrided sel data =>
+      negb (esz (i_ty I) =? 0) && negb (lenZ (i_dims I) =? 0) &&
+      match sel_positions (i_hdr I) sel with Ok ps => lenZ data =? lenZ ps * esz (i_ty I) | _ => false end
+  | _ => false
+  end.
+
 (* the answer agrees with the specification wherever the specification says something *)
 Fixpoint agrees (spec got : list (option Z)) : bool :=
   match spec, got with
